@@ -197,6 +197,19 @@ class LoopVar:
         return "<elem of %r>" % (self.rng,)
 
 
+class SetObj:
+    """A concrete set of abstract hashables (nodes, constants, tuples)."""
+
+    def __init__(self, items=()):
+        self.items = []
+        for x in items:
+            if x not in self.items:
+                self.items.append(x)
+
+    def __repr__(self):
+        return "{%s}" % ", ".join(map(repr, self.items))
+
+
 class IterV:
     """iter(list): a cursor over a concrete abstract sequence."""
 
@@ -232,7 +245,7 @@ class Builtin:
         self.name = name
 
 
-BUILTINS = ("isinstance", "type", "range", "max", "min", "len", "sorted", "set", "iter", "next", "zip", "enumerate", "reversed")
+BUILTINS = ("isinstance", "type", "range", "max", "min", "len", "sorted", "iter", "next", "zip", "enumerate", "reversed", "sum", "any", "all", "abs", "float", "bool")
 
 
 def truth(v, node=None):
@@ -244,6 +257,10 @@ def truth(v, node=None):
         return bool(v.entries)
     if isinstance(v, TupleV):
         return bool(v.items)
+    if isinstance(v, SetObj):
+        return bool(v.items)
+    if isinstance(v, IterV):
+        return True
     raise Unsupported(node, "truth value of %r" % (v,))
 
 
@@ -257,6 +274,7 @@ class Interp:
         self.depth = 0
         self.max_depth = max_depth
         self.steps = 0
+        self.yield_stack = []
 
     # -- integer reasoning -------------------------------------------------
     def truth(self, v, node=None):
@@ -296,8 +314,23 @@ class Interp:
 
     # -- entry -------------------------------------------------------------
     def call_function(self, fn: ast.FunctionDef, args: dict):
-        """Run fn with the given environment; returns the return value."""
+        """Run fn with the given environment; returns the return value.
+
+        A generator function is run eagerly: its yields are collected and returned as a
+        one-shot iterator (laziness is not modelled; one-shot consumption is)."""
         env = dict(args)
+        if _is_generator(fn) and not (self.depth == 0 and getattr(self.w, "wants_yields", False)):
+            saved = self.yield_stack
+            self.yield_stack = saved + [[]]
+            try:
+                try:
+                    self.exec_block(fn.body, env)
+                except _Return:
+                    pass
+                out = self.yield_stack[-1]
+            finally:
+                self.yield_stack = saved
+            return IterV(out)
         try:
             self.exec_block(fn.body, env)
         except _Return as r:
@@ -393,6 +426,10 @@ class Interp:
         c = self.w.concretise_iter(self, it, st)
         if c is not None:
             it = c
+        if isinstance(it, DictObj):
+            it = ListObj(list(it.entries.keys()))
+        if isinstance(it, SetObj):
+            it = ListObj(list(it.items))
         if isinstance(it, ListObj) or isinstance(it, TupleV):
             items = list(it.items)
             broke = False
@@ -504,6 +541,8 @@ class Interp:
             return ListObj([self.eval(x, env) for x in e.elts])
         if isinstance(e, ast.Tuple):
             return TupleV([self.eval(x, env) for x in e.elts])
+        if isinstance(e, ast.Set):
+            return SetObj([self.eval(x, env) for x in e.elts])
         if isinstance(e, ast.Dict):
             d = DictObj()
             for k, v in zip(e.keys, e.values):
@@ -550,7 +589,11 @@ class Interp:
                 return self.eval(e.body, env)
             return self.eval(e.orelse, env)
         if isinstance(e, ast.Yield):
-            self.w.on_yield(self, self.eval(e.value, env) if e.value is not None else NONE, e)
+            v = self.eval(e.value, env) if e.value is not None else NONE
+            if self.yield_stack:
+                self.yield_stack[-1].append(v)
+            else:
+                self.w.on_yield(self, v, e)
             return NONE
         if isinstance(e, ast.JoinedStr):
             return Opaque("fstring")
@@ -574,6 +617,30 @@ class Interp:
                 return Const(a.k - b.k)
             if isinstance(a, ListObj) and isinstance(b, ListObj) and sign == 1:
                 return ListObj(a.items + b.items)
+        if isinstance(a, Const) and isinstance(b, Const) and isinstance(a.v, (int, float)) and isinstance(b.v, (int, float)) \
+                and not isinstance(a.v, bool) and not isinstance(b.v, bool):
+            try:
+                if isinstance(op, ast.Add):
+                    return Const(a.v + b.v)
+                if isinstance(op, ast.Sub):
+                    return Const(a.v - b.v)
+                if isinstance(op, ast.Mult):
+                    return Const(a.v * b.v)
+                if isinstance(op, ast.Div):
+                    return Const(a.v / b.v)
+                if isinstance(op, ast.FloorDiv):
+                    return Const(a.v // b.v)
+                if isinstance(op, ast.Mod):
+                    return Const(a.v % b.v)
+            except ZeroDivisionError:
+                raise AbstractRaise("ZeroDivisionError", node)
+        if isinstance(a, SetObj) and isinstance(b, SetObj):
+            if isinstance(op, ast.BitOr):
+                return SetObj(a.items + b.items)
+            if isinstance(op, ast.BitAnd):
+                return SetObj([x for x in a.items if x in b.items])
+            if isinstance(op, ast.Sub):
+                return SetObj([x for x in a.items if x not in b.items])
         r = self.w.binop(self, a, op, b, node)
         if r is not None:
             return r
@@ -633,7 +700,11 @@ class Interp:
         if isinstance(container, ListObj) or isinstance(container, TupleV):
             return any(self.generic_eq(x, y, node) for y in container.items)
         if isinstance(container, DictObj):
+            if isinstance(x, (ListObj, DictObj, SetObj)):
+                raise AbstractRaise("TypeError", node, detail="unhashable key")
             return self.dict_key(x, node) in container.entries
+        if isinstance(container, SetObj):
+            return any(self.generic_eq(x, y, node) for y in container.items)
         return self.w.contains(self, container, x, node)
 
     def dict_key(self, k, node):
@@ -682,21 +753,29 @@ class Interp:
 
     def comprehension(self, e, env):
         """List / generator / set comprehensions over concrete abstract sequences."""
-        if isinstance(e, ast.DictComp):
-            return None
         out = []
 
         def rec(i, env2):
             if i == len(e.generators):
-                out.append(self.eval(e.elt, env2))
+                if isinstance(e, ast.DictComp):
+                    out.append((self.dict_key(self.eval(e.key, env2), e), self.eval(e.value, env2)))
+                else:
+                    out.append(self.eval(e.elt, env2))
                 return
             g = e.generators[i]
             if g.is_async:
                 raise Unsupported(e, "async comprehension")
             it = self.eval(g.iter, env2)
+            c = self.w.concretise_iter(self, it, e)
+            if c is not None:
+                it = c
             if isinstance(it, IterV):
                 seq = it.drain()
-            elif isinstance(it, (ListObj, TupleV)):
+            elif isinstance(it, (ListObj, TupleV)) and not getattr(it, "has_prefix", False):
+                seq = list(it.items)
+            elif isinstance(it, DictObj):
+                seq = list(it.entries.keys())
+            elif isinstance(it, SetObj):
                 seq = list(it.items)
             else:
                 raise _NotConcrete()
@@ -709,9 +788,17 @@ class Interp:
             rec(0, env)
         except _NotConcrete:
             return None
+        if isinstance(e, ast.DictComp):
+            return DictObj(dict(out))
+        if isinstance(e, ast.SetComp):
+            return SetObj(out)
+        if isinstance(e, ast.GeneratorExp):
+            return IterV(out)
         return ListObj(out)
 
     def load_attr(self, obj, attr, node):
+        if isinstance(obj, SetObj) and attr in ("add", "pop", "discard", "remove", "update", "union"):
+            return BoundMethod(obj, attr)
         if isinstance(obj, ListObj) and attr in ("append", "pop", "extend", "insert", "sort", "reverse", "clear", "remove"):
             return BoundMethod(obj, attr)
         if isinstance(obj, DictObj) and attr in ("get", "keys", "values", "items", "update", "pop", "setdefault", "clear"):
@@ -738,9 +825,28 @@ class Interp:
         if isinstance(f, Builtin):
             return self.call_builtin(f.name, args, kwargs, e)
         if isinstance(f, TypeV):
-            if f.name in ("list", "tuple") and len(args) == 1 and isinstance(args[0], (ListObj, TupleV, IterV)):
-                items = args[0].drain() if isinstance(args[0], IterV) else args[0].items
-                return ListObj(items) if f.name == "list" else TupleV(items)
+            if f.name in ("list", "tuple", "set") and len(args) == 1:
+                c = self.w.concretise_iter(self, args[0], e)
+                seq = _concrete_seq(c if c is not None else args[0])
+                if seq is not None:
+                    if f.name == "set":
+                        for x in seq:
+                            if isinstance(x, (ListObj, DictObj, SetObj)):
+                                raise AbstractRaise("TypeError", e, detail="unhashable set element")
+                        return SetObj(seq)
+                    return ListObj(seq) if f.name == "list" else TupleV(seq)
+            if f.name in ("list", "set") and not args:
+                return ListObj([]) if f.name == "list" else SetObj()
+            if f.name == "dict" and len(args) == 1 and not kwargs:
+                seq = _concrete_seq(args[0])
+                if seq is not None and all(isinstance(x, (TupleV, ListObj)) and len(x.items) == 2 for x in seq):
+                    return DictObj({self.dict_key(x.items[0], e): x.items[1] for x in seq})
+                if isinstance(args[0], DictObj):
+                    return DictObj(dict(args[0].entries))
+            if f.name == "int" and len(args) == 1 and isinstance(args[0], Const) and isinstance(args[0].v, (int, float)):
+                return Const(int(args[0].v))
+            if f.name == "int" and len(args) == 1 and isinstance(args[0], Int):
+                return args[0]
             if f.name == "dict" and not args and not kwargs:
                 return DictObj()
             r = self.w.call_builtin(self, f.name, args, kwargs, e)
@@ -770,7 +876,32 @@ class Interp:
             r = self.w.call_minmax(self, name, args, node)
             if r is not None:
                 return r
+        if name == "range" and 1 <= len(args) <= 2 and all(isinstance(a, Const) and isinstance(a.v, int) for a in args):
+            return ListObj([Const(i) for i in range(*[a.v for a in args])])
+        if name == "sum" and len(args) == 1:
+            seq = _concrete_seq(args[0])
+            if seq is not None and all(isinstance(x, Const) and isinstance(x.v, (int, float)) for x in seq):
+                return Const(sum(x.v for x in seq))
+        if name in ("any", "all") and len(args) == 1:
+            seq = _concrete_seq(args[0])
+            if seq is not None:
+                vals = [self.truth(x, node) for x in seq]
+                return Const(any(vals) if name == "any" else all(vals))
+        if name in ("max", "min") and len(args) == 1 and not kwargs:
+            seq = _concrete_seq(args[0])
+            if seq is not None and seq and all(isinstance(x, Const) and isinstance(x.v, (int, float)) for x in seq):
+                return Const(max(x.v for x in seq) if name == "max" else min(x.v for x in seq))
+            if seq is not None and not seq:
+                raise AbstractRaise("ValueError", node, detail="%s() of an empty sequence" % name)
+        if name == "sorted" and len(args) == 1 and not kwargs:
+            seq = _concrete_seq(args[0])
+            if seq is not None and all(isinstance(x, Const) and isinstance(x.v, (int, float)) for x in seq):
+                return ListObj(sorted(seq, key=lambda c: c.v))
+        if name in ("float", "abs", "bool") and len(args) == 1 and isinstance(args[0], Const):
+            return Const({"float": float, "abs": abs, "bool": bool}[name](args[0].v))
         if name == "len" and len(args) == 1:
+            if isinstance(args[0], SetObj):
+                return Const(len(args[0].items))
             if isinstance(args[0], (ListObj, TupleV)):
                 r = self.w.list_len(self, args[0], node)
                 return r if r is not None else Const(len(args[0].items))
@@ -825,7 +956,26 @@ class Interp:
                 obj.items.append(args[0])
                 return NONE
             raise Unsupported(node, "list method %s" % name)
+        if isinstance(obj, SetObj):
+            if name == "add" and len(args) == 1:
+                if args[0] not in obj.items:
+                    obj.items.append(args[0])
+                return NONE
+            if name == "pop" and not args:
+                if not obj.items:
+                    raise AbstractRaise("KeyError", node, detail="pop from an empty set")
+                return obj.items.pop(0)
+            if name == "discard" and len(args) == 1:
+                if args[0] in obj.items:
+                    obj.items.remove(args[0])
+                return NONE
+            raise Unsupported(node, "set method %s" % name)
         if isinstance(obj, DictObj):
+            if name == "update" and len(args) == 1 and isinstance(args[0], DictObj):
+                if obj.persistent:
+                    self.w.effect(("heap_write", obj.tag, "update"), node)
+                obj.entries.update(args[0].entries)
+                return NONE
             if name == "get" and 1 <= len(args) <= 2:
                 k = self.dict_key(args[0], node)
                 if k in obj.entries:
@@ -850,6 +1000,40 @@ class Interp:
         if isinstance(exc, ast.Name):
             return exc.id
         return "Exception"
+
+
+_GEN_CACHE = {}
+
+
+def _is_generator(fn):
+    k = id(fn)
+    if k not in _GEN_CACHE:
+        _GEN_CACHE[k] = (_is_generator_uncached(fn), fn)
+    return _GEN_CACHE[k][0]
+
+
+def _is_generator_uncached(fn):
+    stack = list(fn.body)
+    while stack:
+        n = stack.pop()
+        if isinstance(n, (ast.Yield, ast.YieldFrom)):
+            return True
+        if isinstance(n, (ast.FunctionDef, ast.AsyncFunctionDef, ast.Lambda, ast.ClassDef)):
+            continue
+        stack.extend(ast.iter_child_nodes(n))
+    return False
+
+
+def _concrete_seq(v):
+    if isinstance(v, IterV):
+        return v.drain()
+    if isinstance(v, (ListObj, TupleV)) and not getattr(v, "has_prefix", False):
+        return list(v.items)
+    if isinstance(v, SetObj):
+        return list(v.items)
+    if isinstance(v, DictObj):
+        return list(v.entries.keys())
+    return None
 
 
 def _pycmp(a, b, op):
